@@ -69,6 +69,12 @@ def insert (c : Cfg α) (s : State α) (v : α) : State α :=
   { s with rows := rows, width := width, variance := s.variance + incr, total := total,
            err := s.err || Num.lt total Num.zero }
 
+/-- `while len(buckets) > 1 and buckets[-1].idx == 0: buckets.pop()` -/
+def trimRows (rows : List (List (α × α))) : List (List (α × α)) :=
+  match rows.reverse.dropWhile List.isEmpty with
+  | [] => [[]]
+  | r => r.reverse
+
 /-- `_delete_bucket`: drop the oldest entry (head of the last row) -/
 def deleteOldest (s : State α) : State α :=
   let k := s.rows.length - 1
@@ -84,7 +90,7 @@ def deleteOldest (s : State α) : State α :=
       let bm := e.1 / (Num.ofNat sz : α)
       let wm := total / (Num.ofNat width : α)
       let incr := e.2 + (Num.ofNat (sz * width) : α) * (bm - wm) * (bm - wm) / Num.ofNat (sz + width)
-      let rows := if tl.isEmpty then s.rows.dropLast else s.rows.dropLast ++ [tl]
+      let rows := if tl.isEmpty then trimRows s.rows.dropLast else s.rows.dropLast ++ [tl]
       { s with rows := rows, width := width, total := total, variance := s.variance - incr,
                err := s.err || Num.lt total Num.zero }
 
@@ -98,11 +104,11 @@ def threshold (c : Cfg α) (s : State α) (n0 n1 : Nat) : Option α :=
     let vw := s.variance / Num.ofNat s.width
     some (Num.sqrt (Num.two * mr * vw * dp) + Num.two / Num.ofNat 3 * dp * mr)
 
-/-- the entries the scan visits, in order: rows from the last to row 0, each without its newest
-entry (`for j in range(bucket.idx - 1)`), as `(bucket size, total)` -/
+/-- the entries the scan visits, in order (oldest first): rows from the last to row 0, every entry
+except the newest one of row 0 (the loop exits there), as `(bucket size, total)` -/
 def examined (rows : List (List (α × α))) : List (Nat × α) :=
   let idxd := (List.range rows.length).zip rows
-  (idxd.reverse.map (fun (i, row) => row.dropLast.map (fun e => (2 ^ i, e.1)))).flatten
+  ((idxd.reverse.map (fun (i, row) => row.map (fun e => (2 ^ i, e.1)))).flatten).dropLast
 
 /-- one pass of the inner `for` loops: does some examined split exceed the bound? -/
 def scan (c : Cfg α) (s : State α) : List (Nat × α) → Nat → Nat → α → α → Bool
